@@ -8,15 +8,20 @@ from props import c01_vals as V
 
 ID = "C01"
 LEAN_MODEL_TARGETS = ["drv_c01"]
-LEAN_PROOF_TARGETS = ["PyroProps.C01"]
+LEAN_PROOF_TARGETS = ["PyroProps.C01Src", "PyroProps.C01"]     # C01Src imports C01
 AUDIT_FILES = ["PyroModel/Bytes.lean", "PyroModel/Values.lean", "PyroModel/Gen/C01.lean", "PyroModel/Wire.lean",
                "PyroProofs/Values.lean", "PyroProofs/ValuesNF.lean", "PyroProofs/ValuesPaths.lean", "PyroProofs/Wire.lean",
-               "PyroProofs/WireStages.lean", "PyroProps/C01.lean", "PyroProps/C06.lean"]
+               "PyroProofs/WireStages.lean", "PyroProps/C01.lean", "PyroProps/C06.lean",
+               "PyroModel/Gen/C01Src.lean", "PyroProps/C01Src.lean"]
 THEOREMS = ["Pyro.C01.C01_lossless", "Pyro.C01.C01_symmetric", "Pyro.C01.C01_delivers_normal_form", "Pyro.C01.C01_idempotent",
             "Pyro.C01.C01_fixed_point", "Pyro.C01.C01_batch_kwargs_none", "Pyro.C01.C01_compression_transparent",
             "Pyro.C01.C01_gen_facts", "Pyro.C01.C01_symmetric_needs_ext_hook", "Pyro.C01.C01_batch_needs_kwargs_guard",
-            "Pyro.C01.C01_symmetric_needs_list_items_on_both_paths"]
-SUITES = ["res", "call", "lib", "spec", "e2e"]
+            "Pyro.C01.C01_symmetric_needs_list_items_on_both_paths",
+            # SerializerBase.recreate_classes transcribed from the source on every run (props/c01_tr.py -> Gen/C01Src.lean): equal to
+            # the model's recreate for every serializer and value; the main theorems restated about the transcription
+            "Pyro.C01.C01_recreate_classes_translated", "Pyro.C01.C01_source_resPath", "Pyro.C01.C01_source_lossless",
+            "Pyro.C01.C01_source_symmetric", "Pyro.C01.C01_source_idempotent"]
+SUITES = ["res", "ressrc", "call", "lib", "spec", "e2e"]
 RULE = ("values generated recursively (depth <= 6) from the property's domain: None/bool, ints at every 32/53/63/64-bit boundary and up "
         "to 2^2000, all float classes (signed zero, subnormal, max, inf, nan), text incl. NUL / astral / reserved-key near misses, "
         "bytes/bytearray, complex, uuid, decimal, date, list/tuple/set/frozenset, dicts with str and non-str keys, class dicts, user "
@@ -40,12 +45,19 @@ TRUSTED = ["props/c01_vals.py: Python value <-> token encoding and the canonical
            "props/c01_e2e.py: in-memory duplex socket standing for a connected socket pair",
            "props/c01_hist.py: the pristine helper process (imports Pyro5, forks one child per reference conversion)",
            "props/c01_extract.py: facts are probed on the imported module (tables of real calls), not read from the source text",
-           "props/c01_conc.py: event-gated interleaving of two threads inside a default()/__getstate__ callback"]
+           "props/c01_conc.py: event-gated interleaving of two threads inside a default()/__getstate__ callback",
+           "props/c01_tr.py: python ast -> Lean text for recreate_classes (refuses what it does not know; validated on every 'res' case by suite 'ressrc'); "
+           "dict_to_class is a parameter of the transcription (the model's dictToClass)"]
 
 SERS = ["serpent", "marshal", "json", "msgpack"]
 
 
 def extract():
+    from props import c01_tr
+    common.repo_on_path()
+    # recreate_classes, transcribed statement by statement (raises Untranslatable = broken tie when the source leaves the fragment)
+    src = c01_tr.transcribe_recreate_classes()
+    common.write_if_changed(os.path.join(common.VERIF, "lean", "PyroModel", "Gen", "C01Src.lean"), src)
     return c01_extract.extract()
 
 
@@ -268,6 +280,8 @@ def correspondence(ctx):
                 if len(ctx.samples) < 4 and real[0] == "ok" and tr[0] in ("M", "E", "U") and len(toks) < 120 and suite == "res":
                     ctx.sample({"line": lines[-1], "real": repr(real)[:200]})
         _run_lines(ctx, suite, lines, reals, cases)
+        if suite == "res":      # the same cases through the transcription of recreate_classes (validates the translator)
+            _run_lines(ctx, "ressrc", ["ressrc" + l[3:] for l in lines], reals, cases)
     outs = common.run_driver("drv_c01", spec_lines)
     ctx.corr_cases += len(spec_lines)
     for l, o, (want, src) in zip(spec_lines, outs, spec_expect):
